@@ -157,7 +157,7 @@ def streams():
 
 
 ASSUMPTIONS = [
-    "Broadcast delivers every sample in send order while a receiver's backlog stays below its limit (50); the generator keeps every backlog <= 40 and the run asserts it",
+    "Broadcast delivers every sample in send order while a receiver's backlog stays below its limit (50); the generator keeps every backlog <= 40 and the oracle reports a run in which a receiver fills up",
     "asyncio task scheduling only decides WHEN the evaluator blocks (Kahn): the model is a function of stream contents; this is what the randomised schedules test, it is not proved",
     "the iteration order of the set returned by asyncio.wait is arbitrary: an input of the model, quantified over in the theorems; off-grid cases are run with asyncio.wait wrapped so that the order is the prescribed one",
 ]
